@@ -505,7 +505,7 @@ def _cases(ctx):
     yield from exhaustive(5 if big else 3)
     if big:
         yield from exhaustive(2)
-    for _ in range(ctx.budget(6, 280)):
+    for _ in range(ctx.budget(30, 280)):
         yield gen_case(ctx.rng)
 
 
